@@ -54,6 +54,10 @@ func main() {
 			bad = true
 		}
 		writeIfChanged(filepath.Join(out, "FiatKernels.lean"), s)
+	case "asm":
+		bad = !runAsm(repo, out)
+	case "facts":
+		bad = !runFacts(repo, out)
 	default:
 		fmt.Fprintln(os.Stderr, "unknown subcommand")
 		os.Exit(2)
